@@ -767,8 +767,17 @@ def _work_cli(vm, d):
 
         yield "cli:relative-output-from-another-directory", relative_output, False, "local.tgz"
         lst = sorted(os.listdir(outdir))
-        if "local.tgz" not in lst or not set(lst) <= {"local.tgz", "out.bin", "out2.bin"}:
+        if "local.tgz" not in lst or not set(lst) <= {"local.tgz", "out.bin", "out2.bin", "cases", "current"}:
             yield "cli:relative-output-misplaced:" + ",".join(lst), (lambda: (_ for _ in ()).throw(AssertionError("relative --output not written to the working directory: %r" % lst))), False
+        # an --output path that goes through a symbolic link to a directory and then '..': the operating system resolves it,
+        # the tool writes to the path it was given
+        os.makedirs(os.path.join(outdir, "cases", "case42"), exist_ok=True)
+        if not os.path.lexists(os.path.join(outdir, "current")):
+            os.symlink(os.path.join("cases", "case42"), os.path.join(outdir, "current"))
+        sym_out = os.path.join(outdir, "current", "..", "out-sym.bin")
+        yield "cli:output-through-symlink-and-dotdot", run(os.path.join(vm, "local.tgz.ve"), os.path.join(vm, "encryption.info"), sym_out), False, sym_out
+        if not os.path.exists(os.path.join(outdir, "cases", "out-sym.bin")) or os.path.exists(os.path.join(outdir, "out-sym.bin")):
+            yield "cli:output-misplaced", (lambda: (_ for _ in ()).throw(AssertionError("--output through a symlink was written elsewhere"))), False
         yield "cli:missing-input", run(os.path.join(vm, "nothere.ve"), os.path.join(vm, "encryption.info"), os.path.join(outdir, "o3")), True
 
         def no_output_argument():
